@@ -39,6 +39,17 @@ impl HeaderMap {
     #[verifier::external_body]
     pub fn clone(&self) -> (r: HeaderMap) ensures r == *self { unimplemented!() }
 }
+// the Entry API as far as `entry(k).or_insert(v)` goes: an existing value is kept
+pub struct HeaderEntry<'a> { pub map: &'a mut HeaderMap, pub k: String }
+impl HeaderMap {
+    #[verifier::external_body]
+    pub fn entry(&mut self, k: String) -> (r: HeaderEntry<'_>) ensures r.k == k, *r.map == *old(self), *final(r.map) == *final(self) { unimplemented!() }
+}
+impl<'a> HeaderEntry<'a> {
+    #[verifier::external_body]
+    pub fn or_insert(self, v: String) -> (r: &'a mut String)
+        ensures final(self.map).m@ == (if old(self.map).m@.contains_key(self.k@) { old(self.map).m@ } else { old(self.map).m@.insert(self.k@, v@) }) { unimplemented!() }
+}
 impl Default for HeaderMap { #[verifier::external_body] fn default() -> (r: HeaderMap) ensures r.m@ == Map::<Seq<char>, Seq<char>>::empty() { unimplemented!() } }
 impl HeaderMap { #[verifier::external_body] pub fn new() -> (r: HeaderMap) ensures r.m@ == Map::<Seq<char>, Seq<char>>::empty() { unimplemented!() } }
 #[derive(Clone, Copy, Debug)]
